@@ -70,7 +70,7 @@ def market_history(seed, max_events=40, tick=1.0, prices=(8, 12), offgrid=False,
     return m, events
 
 
-def search_seeds(install, run, seeds, describe):
+def search_seeds(install, run, seeds, describe, only_function=None):
     """run(seed) under the monitors named in `install`; first contract violation (or forbidden exception) is the witness"""
     monitors.uninstall()
     monitors.install(install)
@@ -81,9 +81,13 @@ def search_seeds(install, run, seeds, describe):
             try:
                 run(seed)
             except monitors.ContractViolation as e:
+                if only_function and e.function != only_function:
+                    continue
                 return {"found": True, "input": {"seed": seed, **describe}, "observed": {"function": e.function, "clause": e.clause, "details": repr(e.details)},
                         "witness_key": f"{e.function}|{e.clause}", "cases": cases, "contract_evaluations": monitors.EVALS["n"]}
             except AssertionError as e:
+                if only_function:
+                    continue
                 return {"found": True, "input": {"seed": seed, **describe}, "observed": {"exception": "AssertionError", "trace": traceback.format_exc()[-700:]},
                         "witness_key": "AssertionError", "cases": cases, "contract_evaluations": monitors.EVALS["n"]}
         return {"found": False, "cases": cases, "contract_evaluations": monitors.EVALS["n"]}
@@ -91,12 +95,14 @@ def search_seeds(install, run, seeds, describe):
         monitors.uninstall()
 
 
-def replay_seed(install, run, seed):
+def replay_seed(install, run, seed, only_function=None):
     monitors.uninstall(); monitors.install(install)
     try:
         run(seed)
         return {"violated": False}
     except monitors.ContractViolation as e:
+        if only_function and e.function != only_function:
+            return {"violated": False, "other_violation": f"{e.function}: {e.clause}"}
         return {"violated": True, "function": e.function, "clause": e.clause, "details": repr(e.details)}
     except AssertionError:
         return {"violated": True, "exception": traceback.format_exc()[-700:]}
